@@ -1,12 +1,12 @@
 CONSTANTS
-    User = {u1, u2}
+    User = {u1}
     Size = 1
     MaxRefresh = 1
     ItemGiveBackUsesItemTag = TRUE
     AtomicRefresh = TRUE
-    MaxReset = 0
+    MaxReset = 1
     AtomicReset = TRUE
-SPECIFICATION FairSpec
-VIEW view
-PROPERTIES Woken
+SPECIFICATION Spec
+VIEW genview
+
 CHECK_DEADLOCK FALSE
